@@ -1,4 +1,5 @@
 from __future__ import annotations
+import keyword
 import typing
 from enum import Enum
 from sympy.printing.pycode import PythonCodePrinter
@@ -29,6 +30,8 @@ class GotranPythonCodePrinter(PythonCodePrinter):
         **{"DiracDelta": "numpy.zeros_like"},
     }
     _kc = {k: f"numpy.{v.replace('math.', '')}" for k, v in PythonCodePrinter._kc.items()}
+    # sympy's list of Python keywords is incomplete (e.g. async, await, None, True)
+    reserved_words = set(PythonCodePrinter.reserved_words).union(keyword.kwlist)
 
     def _hprint_Pow(self, expr, rational=False, sqrt="numpy.sqrt"):
         return super()._hprint_Pow(expr, rational, sqrt)
